@@ -22,6 +22,7 @@ type PropDef struct {
 	SweepScenario func(seed uint64, job props.SweepJob, jobIdx, i int) *props.Scenario
 	Parts         func(tier string, seed uint64) []part
 	Store         func(w workerArgs, sum *Summary, start time.Time, deadline time.Time) int
+	Echo          bool // echo runs: results must not depend on what the process did before
 	Rule          string
 	Assumptions   []string
 	Components    map[string]interface{}
@@ -46,7 +47,7 @@ var propDefs = map[string]*PropDef{}
 
 func init() {
 	propDefs["C07"] = &PropDef{
-		ID: "C07", Level: "exploration",
+		ID: "C07", Level: "exploration", Echo: true,
 		Gen:           props.GenC07,
 		SweepJobs:     props.C07SweepJobs,
 		SweepScenario: props.SweepScenario,
@@ -136,7 +137,7 @@ func init() {
 		Components: schedComponents,
 	}
 	propDefs["C10"] = &PropDef{
-		ID: "C10", Level: "exploration",
+		ID: "C10", Level: "exploration", Echo: true,
 		Gen:   props.GenC10,
 		Parts: schedParts("C10", nil, 60000, 6000, 2000000, 150000),
 		Rule:  "runs = histories on one long-lived instance: 1-3 simulated caller goroutines, 4-8 operations each: decode into a fresh target, decode into a re-used target (previously holding longer / shorter / differently populated values, so capacity is re-used with stale elements beyond len), decode a torn record (aborted operation), Marshal; sync.Pool policy of the map key scratch owned by the simulator (recycled-dirty 70% / fresh / dropped). Oracles: fresh decodes equal the solo decode on a brand-new instance (history independence); a re-used target equals an exactly-sized deep copy of its prior value after decoding the same bytes (physical twin); slices present in the data hold exactly the encoded elements; on the merge family the executable merge rules of the statement. Non-trivial / distinct as for C07, plus single-task histories count as non-trivial when a target or pooled scratch was re-used",
@@ -253,6 +254,25 @@ func runReplay(path string) int {
 	fmt.Printf("replaying %s: %s\n", path, rf.Violation.String())
 	if rf.Engine == "store" {
 		return props.ReplayStore(rf)
+	}
+	if rf.Engine == "echo" && rf.Echo != nil {
+		e := rf.Echo
+		var first uint64
+		for idx := e.From; idx <= e.To; idx += e.Stride {
+			sc := def.Gen(e.Seed, idx)
+			out := props.Execute(props.Prepare(sc, true), def.hooks(), nil, false)
+			if idx == e.From {
+				first = out.ResultHash
+			}
+		}
+		sc := def.Gen(e.Seed, e.From)
+		out := props.Execute(props.Prepare(sc, true), def.hooks(), nil, false)
+		if out.ResultHash != first {
+			fmt.Printf("VIOLATION property=%s replay=%s\n  reproduced: scenario %d returns different results after scenarios %d..%d ran in the same process\n", rf.Property, path, e.From, e.From+e.Stride, e.To)
+			return 1
+		}
+		fmt.Println("not reproduced: both executions returned the same results")
+		return 0
 	}
 	rl := newRaceLog(rf.Race && os.Getenv("GORACE") != "")
 	decs, err := engine.ParseDecs(rf.Decisions)
